@@ -275,6 +275,13 @@ pub fn run_c11(out: &mut Out, tier: &str, rng: &mut Rng) {
     configs.push(("ecu", 0x3C, 0x27));
     configs.push(("sim", 0x9E, 0x27));
     configs.push(("hcu", 0xFE, 0x01));
+    // every kind at an address that is not the shipped one as well (a guard that does not follow the configuration)
+    configs.push(("d7e", 0x3C, 0x27));
+    configs.push(("d7e", 0x01, 0x27));
+    configs.push(("ecm", 0x11, 0x27));
+    configs.push(("vcu", 0x50, 0x27));
+    configs.push(("inclino", 0x33, 0x27));
+    configs.push(("ecu", 0x77, 0x27));
     let pats: Vec<[u8; 8]> = vec![[0x14, 0xFF, 1, 0xFF, b'*', 0, 0, 0], [1, 3, 5, 13, b'*', 0xFF, 0x03, 0xFF], [0x5A, 0x43, 0xFF, 0x00, 0xFF, 0xFF, 0xFF, 0xFF]];
     for (kind, da, sa) in configs {
         for &pgn in PGNS.iter() {
